@@ -68,6 +68,14 @@ def harvest_programs():
         for n in ast.walk(tree):
             if isinstance(n, ast.Constant) and isinstance(n.value, str) and "\n" in n.value and len(n.value) < 3000 and "end" in n.value.lower():
                 out.add(n.value)
+    # the free-form example sources shipped with the repository
+    for path in sorted(glob.glob(os.path.join(REPO, "example", "test_files", "**", "*.f90"), recursive=True)):
+        try:
+            text = open(path).read()
+        except (OSError, UnicodeDecodeError):
+            continue
+        if len(text) < 6000:
+            out.add(text)
     return sorted(out)
 
 
